@@ -125,6 +125,33 @@ pub fn run(prop: &str, seed: u64, n: usize, outdir: &str) -> std::io::Result<()>
             }));
             flags.push((format!("c04_giant_sentence_after_a_short_one_{}", tag), before.unwrap_or(false) as u8));
         }
+        // C13: the statistics of one giant sentence = the evaluations recounted from the lattice the worker holds after
+        // tokenize (one per node and node of the boundary it starts at, plus EOS), and every reported token is a node of
+        // that lattice
+        if prop == "BIG_C13" {
+            let t = vibrato::Tokenizer::new(match gd.build() { Outcome::Ok(d) => d, _ => continue }).max_grouping_len(mgl);
+            let r = std::panic::catch_unwind(std::panic::AssertUnwindSafe(|| {
+                let mut w = t.new_worker();
+                w.init_connid_counter();
+                w.reset_sentence(&sentence);
+                w.tokenize();
+                w.update_connid_counts();
+                let (ends, eos, _) = w.verif_lattice_dump();
+                let (lc, rc) = w.verif_counts().unwrap_or_default();
+                let mut el = vec![0usize; lc.len()];
+                let mut er = vec![0usize; rc.len()];
+                let preds = |sn: usize| -> Vec<usize> { if sn == 0 { vec![0] } else { ends.get(sn).map(|v| v.iter().map(|x| x[5] as usize).collect()).unwrap_or_default() } };
+                for v in ends.iter().skip(1) { for nd in v { for pr in preds(nd[0] as usize) { if let Some(x) = el.get_mut(nd[4] as usize) { *x += 1; } if let Some(x) = er.get_mut(pr) { *x += 1; } } } }
+                if let Some(e) = eos { for pr in preds(e[0] as usize) { el[0] += 1; if let Some(x) = er.get_mut(pr) { *x += 1; } } }
+                let tk = toks(&w);
+                let tokens_are_nodes = tk.iter().all(|x| ends.get(x.1).map_or(false, |v| v.iter().any(|nd| nd[0] as usize <= x.0 && nd[1] as usize == x.0 && nd[4] as u16 == x.5 && nd[5] as u16 == x.6)));
+                (el == lc && er == rc, tokens_are_nodes, !tk.is_empty())
+            }));
+            match r {
+                Ok((same, nodes, nonempty)) => { flags.push(("c13_counts_are_the_evaluations_of_the_lattice".into(), same as u8)); flags.push(("c13_tokens_are_nodes_of_the_counted_lattice".into(), (nodes && nonempty) as u8)); }
+                Err(_) => flags.push(("c13_no_panic".into(), 0)),
+            }
+        }
         // C12: a run of more than 65535 spaces in leading / inner / trailing position, and spaces only
         if gd.space_clean {
             let t = vibrato::Tokenizer::new(match gd.build() { Outcome::Ok(d) => d, _ => continue }).max_grouping_len(mgl);
